@@ -37,6 +37,7 @@ def run(ctx):
     ctx.do(rule_no_relabel)
     ctx.do(rule_one_writer_one_reader)
     ctx.do(rule_writer_accepts_what_encoders_send)
+    ctx.do(rule_reader_reads_the_text_as_given)
     ctx.do(rule_truncated_in_utc)
     ctx.do(rule_value_object)
     ctx.do(rule_state_keys_agree)
@@ -712,3 +713,52 @@ def rule_property_forward(ctx, rule_id="C15.property-forward"):
               key(init.module.relpath, init.qualname, "defaults"), "default precision settings changed", file=init.module.relpath,
               line=init.node.lineno, function=init.qualname, expected="precision='any', precision_constraint='exact'",
               found={k: norm(v) for k, v in d.items()})
+
+
+def rule_reader_reads_the_text_as_given(ctx, rule_id="C15.api-domain"):
+    """The one reader hands strptime the caller's text itself and keeps what strptime returns: the two formats of the
+    specification (…Z, with or without a fraction) are the whole input language, and the instant is the one the text
+    denotes.  Text that is rewritten first (an offset cut off and replaced by 'Z') or a result that is shifted afterwards (the
+    offset "taken off" by timedelta arithmetic -- with the sign applied to the hours only, -03:30 becomes -02:30) makes the
+    written instant differ from the one given for particular inputs only.  (i) every reaching definition of strptime's text
+    argument is the parameter; (ii) the value strptime returns is not re-bound through arithmetic before it gets its zone."""
+    run = ctx.run
+    prog = ctx.prog
+    fi = prog.func(U + "::parse_into_datetime")
+    rel = fi.module.relpath
+    from ..forward import flow_of
+    fl = flow_of(fi)
+    calls = [c for c in body_walk(fi.node) if isinstance(c, ast.Call) and isinstance(c.func, ast.Attribute) and c.func.attr == "strptime" and c.args]
+    if len(calls) != 1:
+        raise AnalysisError("parse_into_datetime: expected one strptime call (%d)" % len(calls))
+    a0 = calls[0].args[0]
+    if isinstance(a0, ast.Name):
+        defs = fl.rd.reaching(fl.node_for(a0), a0.id)
+        ok1 = bool(defs) and all(isinstance(v, tuple) and v[0] == "param" for _dn, v in defs)
+        found1 = [short(v, 70) if isinstance(v, ast.AST) else str(v) for _dn, v in defs if not (isinstance(v, tuple) and v[0] == "param")]
+    else:
+        ok1, found1 = False, [short(a0, 70)]
+    run.check(ok1, rule_id, key(rel, fi.qualname, "reader-gets-the-text-as-given"),
+              "the text handed to strptime is not the caller's text on every path (it is rewritten first): the reader accepts "
+              "forms the two specified formats do not have, and what it makes of them is decided by the rewriting", file=rel,
+              line=calls[0].lineno, function=fi.qualname, expected="strptime(<the parameter>, <format>)", found=found1)
+    # (ii) the variable that receives strptime's result is assigned nowhere else from itself with arithmetic
+    st = calls[0]
+    while st is not None and not isinstance(st, ast.Assign):
+        st = getattr(st, "parent", None)
+    ok2 = True
+    found2 = []
+    if st is not None and isinstance(st.targets[0], ast.Name):
+        rv = st.targets[0].id
+        for a_ in body_walk(fi.node):
+            if isinstance(a_, (ast.Assign, ast.AugAssign)) and a_ is not st:
+                tg = a_.targets[0] if isinstance(a_, ast.Assign) else a_.target
+                if isinstance(tg, ast.Name) and tg.id == rv and (isinstance(a_, ast.AugAssign) or any(
+                        isinstance(x_, ast.BinOp) and isinstance(x_.op, (ast.Add, ast.Sub)) and rv in {n_.id for n_ in ast.walk(x_) if isinstance(n_, ast.Name)}
+                        for x_ in ast.walk(a_.value))):
+                    ok2 = False
+                    found2.append(short(a_, 70))
+    run.check(ok2, rule_id, key(rel, fi.qualname, "parsed-instant-not-shifted"),
+              "the value strptime returned is shifted by arithmetic before it is used: the instant written is not the one the "
+              "text denotes whenever the shift is wrong for the input (sign of the minutes of a negative offset, ...)", file=rel,
+              line=calls[0].lineno, function=fi.qualname, expected="the parsed value gets tzinfo=UTC and nothing else", found=found2)
